@@ -104,3 +104,46 @@ V("c03-twin-rename-local", "C03", "-", "dask_array/_materialize.py", None, None,
 V("c03-twin-positive-match-form", "C03", "-", "dask_array/_expr.py",
   "        if _chunks_match(array.chunks, self._chunks):\n            return lowered.setdefault(self._name, array)\n        if any(math.isnan(s) for dim in self._chunks for s in dim):",
   "        if not _chunks_match(array.chunks, self._chunks):\n            pass\n        else:\n            return lowered.setdefault(self._name, array)\n        if any(math.isnan(s) for dim in self._chunks for s in dim):", twin=True)
+
+# ---------------------------------------------------------------------------- C04
+V("c04-rootalias-in-pinned", "C04", "R04.1", "dask_array/_collection.py",
+  "        return new_collection(self._lowered_expr)\n", "        return new_collection(RootAlias(self._lowered_expr, self._name))\n", expect="Array._pinned")
+V("c04-embedded-root-guard-dropped", "C04", "R04.1", "dask_array/_materialize.py",
+  "        if any(node._name == name for node in expr.walk()):", "        if False:", expect="_materialize")
+V("c04-name-from-lowered", "C04", "R04.6", "dask_array/_collection.py",
+  "        return self.expr._name\n", "        return self._lowered_expr._name\n", expect="Array._name")
+V("c04-keys-from-lowering", "C04", "R04.2", "dask_array/_collection.py",
+  "        name, chunks, numblocks = self._name, self.chunks, self.numblocks\n", "        name, chunks, numblocks = self.expr.lower_completely()._name, self.chunks, self.numblocks\n", expect="Array._cached_dask_keys")
+V("c04-keys-numblocks-from-lowered", "C04", "R04.3", "dask_array/_collection.py",
+  "        name, chunks, numblocks = self._name, self.chunks, self.numblocks\n", "        name, chunks, numblocks = self._name, self.chunks, self.__dict__.get('_nb', ())\n", expect="Array._cached_dask_keys")
+V("c04-graph-from-raw", "C04", "R04.3", "dask_array/_collection.py",
+  "        out = self._lowered_expr\n        return Expr.__dask_graph__(out)\n", "        out = self.expr.optimize()\n        return Expr.__dask_graph__(out)\n", expect="Array.__dask_graph__")
+V("c04-elemwise-deps-drop-out-always", "C04", "R04.4", "dask_array/_blockwise.py",
+  "        if self.where is True and self.out is not None:\n            out_name", "        if self.out is not None:\n            out_name", expect="Elemwise.dependencies")
+V("c04-class-without-layer", "C04", "R04.5", "dask_array/_expr.py",
+  None, "\n\nclass Passthrough(ArrayExpr):\n    _parameters = [\"array\"]\n\n    @functools.cached_property\n    def chunks(self):\n        return self.array.chunks\n\n\ndef passthrough(x):\n    return Passthrough(x)\n", expect="Passthrough")
+V("c04-twin-rename-helper", "C04", "-", "dask_array/_collection.py",
+  "        def keys(*args):\n            if not chunks:\n                return [(name,)]\n            ind = len(args)\n            if ind + 1 == len(numblocks):\n                return [(name,) + args + (i,) for i in range(numblocks[ind])]\n            return [keys(*(args + (i,))) for i in range(numblocks[ind])]\n\n        return keys()\n\n    def __dask_keys__",
+  "        def build(*args):\n            if not chunks:\n                return [(name,)]\n            ind = len(args)\n            if ind + 1 == len(numblocks):\n                return [(name,) + args + (j,) for j in range(numblocks[ind])]\n            return [build(*(args + (j,))) for j in range(numblocks[ind])]\n\n        return build()\n\n    def __dask_keys__", twin=True)
+
+# ---------------------------------------------------------------------------- C05
+V("c05-persist-unpinned", "C05", "R05.1", "dask_array/_collection.py",
+  "        return DaskMethodsMixin.persist(self._pinned(), **kwargs)", "        return DaskMethodsMixin.persist(self, **kwargs)", expect="Array.persist")
+V("c05-compute-unpinned", "C05", "R05.1", "dask_array/_collection.py",
+  "        return DaskMethodsMixin.compute(self._pinned(), **kwargs)", "        return DaskMethodsMixin.compute(new_collection(self.expr.optimize()), **kwargs)", expect="Array.compute")
+V("c05-postpersist-lowered-name", "C05", "R05.3", "dask_array/_collection.py",
+  "            [],\n            self._name,\n        )", "            [],\n            self._lowered_expr._name,\n        )", expect="__dask_postpersist__")
+V("c05-postpersist-lowered-chunks", "C05", "R05.3", "dask_array/_collection.py",
+  "            meta,\n            self.chunks,\n            [],", "            meta,\n            self._lowered_expr.chunks,\n            [],", expect="__dask_postpersist__")
+V("c05-second-materialize-path", "C05", "R05.2", "dask_array/_collection.py",
+  "        keys = self.__dask_keys__()\n        graph = self.__dask_graph__()\n", "        keys = self.__dask_keys__()\n        from dask._expr import Expr\n        graph = Expr.__dask_graph__(_materialize(self.expr, optimize_graph=optimize_graph))\n", expect="to_delayed")
+V("c05-lowered-not-cached", "C05", "R05.2", "dask_array/_collection.py",
+  "    @cached_property\n    def _lowered_expr(self):", "    @property\n    def _lowered_expr(self):", expect="_lowered_expr")
+V("c05-frisky-from-raw", "C05", "R05.2", "dask_array/_frisky/collect.py",
+  "    _walk_records([collection._lowered_expr], seen, records)", "    _walk_records([collection.expr.optimize()], seen, records)", expect="collect_task_records")
+V("c05-to-delayed-lowered-keys", "C05", "R05.4", "dask_array/_collection.py",
+  "        keys = self.__dask_keys__()\n        graph = self.__dask_graph__()\n", "        keys = self._lowered_expr.__dask_keys__()\n        graph = self.__dask_graph__()\n", expect="to_delayed")
+V("c05-optimize-flag-missing", "C05", "R05.5", "dask_array/_collection.py",
+  "        out.__dict__[\"_lowered_expr_optimize_graph\"] = True\n", "", expect="Array.optimize")
+V("c05-twin-kwargs-order", "C05", "-", "dask_array/_collection.py",
+  "    def compute(self, **kwargs):\n        return DaskMethodsMixin.compute(self._pinned(), **kwargs)", "    def compute(self, **kwargs):\n        # delegate\n        return DaskMethodsMixin.compute(self._pinned(), **kwargs)", twin=True)
